@@ -14,6 +14,26 @@ CLAIMED = {
           "The whole domain (every 16-bit value, both parities) is enumerated in both tiers and compared, attribute by attribute, with a bit-pattern table written from CEA-608; all six code finders are evaluated for ambiguity. Multi-word lines are sampled (disassembly is checked to be word-local).",
           "Trusted: vt/ref_608.py classify(); eight conventional Unicode cells accept alternatives; colours compared by class (CEA-608 names colours, not RGB).",
           "DESIGN.md C17"),
+  "C01": ("Hypothesis-generated documents x reference-derived probe times, compared with an independent TTML2 reference interpreter (presence, region association, order)",
+          "Generated-input search: each snapshot of each generated document is compared leaf by leaf and container by container with vt/ref_isd.py. Exploration only: bounded trees (<= 40 nodes quick, 120 thorough), lattice plus random rational times.",
+          "Trusted: vt/ref_isd.py (per-element reading of TTML2 11.3.1/12). Known finding I-3 (ruby losing a child) is excluded by construction in the main part and kept under test by the ruby_timed part.",
+          "DESIGN.md C01"),
+  "C02": ("Hypothesis documents with animation on offset elements x probe times; metamorphic comparison over time plus reference change points",
+          "Generated-input search: strict monotonicity, completeness (snapshot at t equals the snapshot at the last reported time; every reference change point that alters the rendered reference snapshot is reported) and sequence == snapshots at reported times.",
+          "Trusted: reference change points from vt/ref_isd.py. Known finding I-1 (animation steps on offset elements) is reported as KNOWN-FINDING and excluded by construction in the main part.",
+          "DESIGN.md C02"),
+  "C03": ("Hypothesis style-heavy documents; every (element, applicable property) cell compared with an independent style-resolution reference",
+          "Generated-input search over all 36 properties x sources (animation, specified, inherited, initial) x units; the evidence reports the per-cell coverage grid.",
+          "Trusted: vt/ref_isd.py compute(). Not asserted: winner among simultaneously active steps with different values; region direction when only initial/animated values decide.",
+          "DESIGN.md C03"),
+  "C13": ("Hypothesis documents x probe times and every generate_isd_sequence entry, walked through an invariant predicate (one bucket per clause)",
+          "Generated-input search: shape invariants (no timing/animation/region refs, content model, exact applicable style sets, rh/rw lengths, origin==position, no display none, white-space rules, ownership, document parameters).",
+          "Trusted: vt/ref_lwsp.py white-space rules (DESIGN 2.3) and the applicability table in vt/ref_isd.py transcribed from doc/data_model.md.",
+          "DESIGN.md C13"),
+  "C14": ("Hypothesis (document, operation history) pairs interpreted against the real API and a fresh copy; fingerprint invariance; cached vs uncached snapshots modulo non-painting empty regions",
+          "Generated-input search over histories of significant_times / from_model (cached, uncached) / generate_isd_sequence / SRT / VTT / IMSC writer calls on one document object; the generator builds regions whose background is revealed only by animation or initial values on purpose.",
+          "Trusted: vt/ref_isd.py for which empty regions paint. Histories are data (lists of operations) so the whole history shrinks as one value.",
+          "DESIGN.md C14"),
 }
 NOT_APPLICABLE = {}
 
